@@ -200,6 +200,27 @@ impl Report {
             *g.seen_sigs.entry(sig.to_string()).or_default() += n - max;
             g.violations.push((Finding { signature: sig, description, replay: f.replay }, path));
         }
+        // A call that panicked delivered neither the promised result nor a typed error. The explorers count such calls
+        // per outcome class ("...panic..."); any of them is a violation of the property being explored (and of C19,
+        // which quantifies over the histories of all the other properties in both build profiles).
+        let panics: Vec<(String, u64)> = g.outcomes.iter().filter(|(k, n)| k.to_lowercase().contains("panic") && **n > 0).map(|(k, n)| (k.clone(), *n)).collect();
+        for (k, n) in panics {
+            let sig = json!({"check": "panic_during_exploration", "outcome_class": k});
+            if self.known.iter().any(|e| e["status"] == "known" && e["signature"] == sig) {
+                continue;
+            }
+            let h = crate::snap::digest(&sig.to_string());
+            let path = PathBuf::from(format!("{VERIF_ROOT}/replays/{}-{:016x}.json", self.property, (h >> 64) as u64));
+            let description = format!("{n} call(s) of outcome class '{k}' panicked during the exploration ({} build profile)", self.profile);
+            let replay = json!({"outcome_class": k, "profile": self.profile, "note": "panics are counted per outcome class; re-run this check in this profile with RUST_BACKTRACE=1 and without silence_panics to see the first one"});
+            let doc = json!({"property": self.property, "profile": self.profile, "signature": sig, "description": description, "replay": replay});
+            let _ = std::fs::create_dir_all(format!("{VERIF_ROOT}/replays"));
+            let _ = std::fs::write(&path, serde_json::to_string_pretty(&doc).unwrap());
+            if !g.seen_sigs.contains_key(&sig.to_string()) {
+                *g.seen_sigs.entry(sig.to_string()).or_default() += n;
+                g.violations.push((Finding { signature: sig, description, replay }, path));
+            }
+        }
         let total_viol: u64 = g.seen_sigs.values().sum();
         if coverage.get("samples").is_none() {
             coverage["samples"] = Value::Array(g.samples.clone());
